@@ -364,14 +364,21 @@ def run_greedy(case):
     for i in range(30):
         nS, nA = int(rng.integers(1, 7)), int(rng.integers(1, 5))
         q = rng.normal(size=(nS, nA)).astype(np.float32)
+        s = int(rng.integers(nS))
+        if i % 3 == 2:
+            # Tuple(Discrete, Discrete) observations: make_q_table gives a table
+            # of shape obs_shape + (n_actions,), indexed by the observation tuple
+            dims = (int(rng.integers(1, 6)), int(rng.integers(1, 8)))
+            q = rng.normal(size=dims + (nA,)).astype(np.float32)
+            s = tuple(int(rng.integers(d)) for d in dims)
+            res.see("tuple_observation_tables")
         if rng.random() < 0.4:
             q = np.round(q)
-        s = int(rng.integers(nS))
         ok, a = guarded(res, "C13/raises/greedy_policy", value_policy.greedy_policy,
                         jnp.asarray(q), s)
         if not ok:
             return res
-        if q[s, int(a)] != q[s].max():
+        if not (0 <= int(a) < nA) or q[s][int(a)] != q[s].max():
             res.violation("C13/greedy/not_maximiser", f"tabular greedy action "
                           f"{int(a)} is not a maximiser of {q[s].tolist()}")
             return res
@@ -381,30 +388,39 @@ def run_greedy(case):
                          0.0, key)
         if not ok:
             return res
-        if q[s, int(a0)] != q[s].max():
+        if not (0 <= int(a0) < nA) or q[s][int(a0)] != q[s].max():
             res.violation("C13/epsilon_greedy/eps0_not_greedy",
                           f"epsilon=0 chose {int(a0)} for row {q[s].tolist()}")
             return res
-        q2 = rng.normal(size=(nS, nA)).astype(np.float32) * 5
+        q2 = rng.normal(size=q.shape).astype(np.float32) * 5
         a1 = value_policy.epsilon_greedy_policy(jnp.asarray(q), s, 1.0, key)
         a2 = value_policy.epsilon_greedy_policy(jnp.asarray(q2), s, 1.0, key)
-        if int(a1) != int(a2) or not (0 <= int(a1) < nA):
+        if not (0 <= int(a1) < nA):
+            res.violation("C13/epsilon_greedy/invalid_action",
+                          f"epsilon=1 chose action {int(a1)} from a table of shape "
+                          f"{q.shape} ({nA} actions)")
+            return res
+        if int(a1) != int(a2):
             res.violation("C13/epsilon_greedy/eps1_depends_on_values",
                           f"epsilon=1, same key: action {int(a1)} vs {int(a2)} for "
                           f"different tables")
             return res
         res.see("greedy_checks", 3)
-    # epsilon=1 must spread over all actions
-    nA = 4
-    q = np.zeros((2, nA), np.float32)
-    q[:, 0] = 10.0
-    seen = set()
-    for j in range(60):
-        seen.add(int(value_policy.epsilon_greedy_policy(
-            jnp.asarray(q), 0, 1.0, jax.random.key(j))))
-    if seen != set(range(nA)):
-        res.violation("C13/epsilon_greedy/eps1_not_uniform",
-                      f"epsilon=1 over 60 keys only chose {sorted(seen)}")
+    # epsilon=1 must spread over all actions - and over nothing else
+    for shape, s0 in (((2, 4), 0), ((5, 2, 4), (3, 1)), ((4, 7, 2), (0, 6))):
+        nA = shape[-1]
+        q = np.zeros(shape, np.float32)
+        q[..., 0] = 10.0
+        seen = set()
+        for j in range(60):
+            seen.add(int(value_policy.epsilon_greedy_policy(
+                jnp.asarray(q), s0, 1.0, jax.random.key(j))))
+        if seen != set(range(nA)):
+            res.violation("C13/epsilon_greedy/eps1_not_uniform",
+                          f"epsilon=1 over 60 keys chose {sorted(seen)} from a table "
+                          f"of shape {shape} ({nA} actions)")
+            return res
+        res.see("greedy_checks")
     for i in range(10):
         nA = int(rng.integers(2, 5))
         net = MLP(3, nA, [6], "tanh", nnx.Rngs(int(rng.integers(1000))))
